@@ -108,20 +108,24 @@ def run(prog: Program, rep, thorough: bool) -> None:
                      f'metric halves of the model would describe different atmospheres')
     cad = prog.func(C.M_COND, 'Atmo.calculate_air_density')
     rep.saw(cad)
-    loc = {}
-    for s in cad.node.body:
-        if isinstance(s, ast.Assign) and isinstance(s.targets[0], ast.Name) and isinstance(s.value, ast.Constant):
-            loc[s.targets[0].id] = float(s.value.value)
-    if 'R' not in loc or 'M_a' not in loc:
-        raise AnalysisError('calculate_air_density: R / M_a are not literal locals any more')
-    rho = consts['cStandardPressureMetric'] * 100 * loc['M_a'] / (loc['R'] * (consts['cStandardTemperatureC'] + consts['cDegreesCtoK']))
+    # the density routine evaluated at the standard sea-level state (15 C, 1013.25 hPa, dry): exact rational arithmetic
+    # on the literals, whatever they are called and wherever they are kept
+    ev0 = Evaluator(prog)
+    try:
+        r0, _st0 = ev0.call_value(cad, [Scalar(Fraction(repr(consts['cStandardTemperatureC']))),
+                                       Scalar(Fraction(repr(consts['cStandardPressureMetric']))), Scalar(0)])
+    except Undecided as exc:
+        raise AnalysisError(f'calculate_air_density at the standard state: {exc}') from exc
+    vals0 = [A.numeric(x.rf) if isinstance(x, Scalar) else None for _cp, x in cond_leaves(r0)]
+    if len(vals0) != 1 or vals0[0] is None:
+        raise AnalysisError(f'calculate_air_density at the standard state does not fold to a number: {r0!r}'[:200])
+    rho = vals0[0]
     if abs(rho / consts['cStandardDensityMetric'] - 1) <= 1e-4:
-        rep.ok('C08.R1', cad.where, f'P0 M_a / (R T0) = {rho:.6f} = standard density within 1e-4')
+        rep.ok('C08.R1', cad.where, f'dry-air density at (T0, P0) = {rho:.6f} kg/m^3 = standard density within 1e-4')
     else:
         rep.fail('C08.R1', cond.path, cad.node.lineno, cad.qualname, 'ideal-gas',
-                 f'P0 M_a / (R T0) = {rho:.6f} but cStandardDensityMetric = {consts["cStandardDensityMetric"]}: the standard '
-                 f'atmosphere would not have density ratio 1')
-    rep.assume('the compressibility term of the moist-air routine is ~5e-6 at standard conditions')
+                 f'the density routine gives {rho:.6f} kg/m^3 at the standard sea-level state but cStandardDensityMetric = '
+                 f'{consts["cStandardDensityMetric"]}: the standard atmosphere would not have density ratio 1')
 
     # ---- R2 ------------------------------------------------------------------------------------
     def sym_exponent(ev_, module, name):
